@@ -115,7 +115,9 @@ def oracle(ctx):
         elif kind == 'volume':
             ops.append(('container', f'[Container]\nImage=i\nVolume={r}:/c\n'))
         elif kind == 'mount':
-            ops.append(('container', f'[Container]\nImage=i\nMount=type=bind,source={r},target=/t\n'))
+            # every mount type whose source is a path of the host (bind, glob) or goes through the same resolver (volume, image)
+            mt = rnd.choice(['bind', 'bind', 'glob', 'glob', 'volume', 'image'])
+            ops.append(('container', f'[Container]\nImage=i\nMount=type={mt},{rnd.choice(["source", "src"])}={r},target=/t\n'))
         elif kind == 'wd-yaml':
             ops.append(('kube', f'[Kube]\nYaml={r}\nSetWorkingDirectory=yaml\n'))
         else:
